@@ -90,7 +90,7 @@ def scenarios(tier, seed):
                     if tier == "quick" and variant != (len(struct) + len(op)) % 3:
                         continue
                     out.append(dict(family=f"jpd/{op}/{struct}", mode="jpd", card=card, struct=struct, op=op, variant=variant, hashseed=k % 2,
-                                    budget_s=40 if tier == "quick" else 200, max_paths=300))
+                                    budget_s=25 if tier == "quick" else 200, max_paths=300))
     return out
 
 
